@@ -81,9 +81,116 @@ static std::string runPCA(const Sx& c) {
   return o.str();
 }
 
+static std::string ivStr(const Interval& iv) {
+  std::ostringstream o;
+  o << "(" << sx_d(iv.getVmin()) << " " << sx_d(iv.getVmax()) << " " << (iv.getMinIncluded() ? 1 : 0) << " " << (iv.getMaxIncluded() ? 1 : 0) << ")";
+  return o.str();
+}
+static std::string colStr(Db* db, int icol) {
+  VectorDouble v = db->getColumnByColIdx(icol, false, false);
+  return vecStr(v);
+}
+
+// (1 y r n)
+static std::string runHermite(const Sx& c) {
+  VectorDouble p = hermitePolynomials(c[1].d(), c[2].d(), (int) c[3].i());
+  return "(" + vecStr(p) + ")";
+}
+
+// (2 mode nbpoly flagBound data sel yq zq psi bounds)
+//   mode 0: fit on the Db variable (selection honoured by AAnam::fit), mode 1: reset(bounds..., r = 1, psi)
+static std::string runAnamHermite(const Sx& c) {
+  int mode = (int) c[1].i(), nbpoly = (int) c[2].i(); bool flagBound = c[3].b();
+  VectorDouble data = c[4].vd(TEST);
+  int n = (int) data.size();
+  VectorDouble tab = data; VectorString names = {"z"}, locs = {"z1"};
+  if (c[5].size() > 0) { for (auto& x : c[5].l) tab.push_back(x.b() ? 1. : 0.); names.push_back("sel"); locs.push_back("sel"); }
+  Db* db = Db::createFromSamples(n, ELoadBy::COLUMN, tab, names, locs, false);
+  AnamHermite anam(nbpoly, flagBound);
+  int rc = 0;
+  if (mode == 0) rc = anam.fit(db, "z");
+  else {
+    VectorDouble b = c[9].vd(TEST);
+    anam.reset(b[0], b[1], b[2], b[3], b[4], b[5], b[6], b[7], 1., c[8].vd());
+  }
+  std::ostringstream o;
+  o << "(" << rc;
+  if (rc != 0) { o << ")"; delete db; return o.str(); }
+  VectorDouble sq(nbpoly); for (int i = 0; i < nbpoly; i++) sq[i] = sqrt((double) i);
+  o << " " << vecStr(anam.getPsiHns()) << " " << ivStr(anam._az) << " " << ivStr(anam._ay) << " " << ivStr(anam._pz) << " " << ivStr(anam._py) << " " << vecStr(sq);
+  VectorDouble yq = c[6].vd(TEST), zq = c[7].vd(TEST);
+  o << " " << vecStr(anam.gaussianToRawVector(yq)) << " " << vecStr(anam.rawToGaussianVector(zq));
+  // Db level: raw -> Gaussian -> raw by name, then by locator
+  int ncol0 = db->getColumnNumber();
+  int r1 = anam.rawToGaussian(db, "z");
+  o << " " << r1 << " " << (r1 == 0 ? colStr(db, db->getColumnNumber() - 1) : std::string("()"));
+  int r2 = 1;
+  if (r1 == 0) {
+    String yname = db->getNameByColIdx(db->getColumnNumber() - 1);
+    r2 = anam.gaussianToRaw(db, yname);
+    o << " " << r2 << " " << (r2 == 0 ? colStr(db, db->getColumnNumber() - 1) : std::string("()"));
+  } else o << " 1 ()";
+  // by locator: Z locator is now on the back-transformed variable; go forward and back again
+  int nb = db->getColumnNumber();
+  int r3 = anam.rawToGaussianByLocator(db);
+  int nb3 = db->getColumnNumber();
+  int r4 = anam.gaussianToRawByLocator(db);
+  int nb4 = db->getColumnNumber();
+  o << " " << r3 << " " << (nb3 - nb) << " " << r4 << " " << (nb4 - nb3) << " " << ((r4 == 0 && nb4 > nb3) ? colStr(db, nb4 - 1) : std::string("()"));
+  o << ")";
+  delete db;
+  return o.str();
+}
+
+// (3 data wt)
+static std::string runNormalScore(const Sx& c) {
+  VectorDouble data = c[1].vd(TEST), wt = c[2].vd(TEST);
+  VectorDouble s = VH::normalScore(data, wt);
+  return "(" + vecStr(s) + " " + std::to_string((int) s.size()) + ")";
+}
+
+// (4 data yq zq)
+static std::string runAnamEmpirical(const Sx& c) {
+  VectorDouble data = c[1].vd(TEST);
+  AnamEmpirical anam;
+  int rc = anam.fitFromArray(data);
+  std::ostringstream o; o << "(" << rc;
+  if (rc != 0 || anam.getNDisc() <= 0) { o << ")"; return o.str(); }
+  o << " " << vecStr(anam.getZDisc()) << " " << vecStr(anam.getYDisc());
+  VectorDouble yq = c[2].vd(TEST), zq = c[3].vd(TEST);
+  o << " " << vecStr(anam.gaussianToRawVector(yq)) << " " << vecStr(anam.rawToGaussianVector(zq));
+  VectorDouble y = anam.rawToGaussianVector(data);
+  o << " " << vecStr(y) << " " << vecStr(anam.gaussianToRawVector(y));
+  o << " " << ivStr(anam._az) << " " << ivStr(anam._ay) << ")";
+  return o.str();
+}
+
+// (5 ndim mode angles|matrix vecs)
+static std::string runRotation(const Sx& c) {
+  int ndim = (int) c[1].i(), mode = (int) c[2].i();
+  Rotation rot(ndim);
+  int rc = 0;
+  if (mode == 0) rc = rot.setAngles(c[3].vd());
+  else rc = rot.setMatrixDirectVec(c[3].vd());
+  std::ostringstream o; o << "(" << rc << " " << (rot.isRotated() ? 1 : 0) << " " << matStr(rot.getMatrixDirect()) << " " << matStr(rot.getMatrixInverse()) << " (";
+  bool first = true;
+  for (auto& v : c[4].l) {
+    VectorDouble in = v.vd(), d(ndim), b(ndim);
+    rot.rotateDirect(in, d); rot.rotateInverse(d, b);
+    o << (first ? "" : " ") << "(" << vecStr(d) << " " << vecStr(b) << ")"; first = false;
+  }
+  o << "))";
+  return o.str();
+}
+
 static std::string run(const Sx& c) {
   long long kind = c[0].i();
   if (kind == 0) return runPCA(c);
+  if (kind == 1) return runHermite(c);
+  if (kind == 2) return runAnamHermite(c);
+  if (kind == 3) return runNormalScore(c);
+  if (kind == 4) return runAnamEmpirical(c);
+  if (kind == 5) return runRotation(c);
   return "(-997 1)";
 }
 int main(int argc, char** argv) { return sx_main(argc, argv, run); }
